@@ -130,6 +130,15 @@ def judge(case, raw, cmpr, model):
             continue
         if d.get('T1') != '=':
             bad.append(('text-differs-after-read', '%s: MIR_output differs after the binary round trip' % tag))
+        if d.get('LI1', 'ok') != 'ok' or d.get('LIM', 'ok') != 'ok':
+            # the labels a branch / switch / laddr operand or an lref item refers to are the label insns of the function:
+            # text and bytes name labels by number, load / link / interpreter / generator use the object
+            bad.append(('label-identity-lost-after-read', '%s: a label reference of the module read back is not attached to a label '
+                        'insn of its function: %s' % (tag, d.get('LI1') if d.get('LI1', 'ok') != 'ok' else
+                                                      'modules written one by one: ' + d.get('LIM'))))
+        if d.get('LI0', 'ok') != 'ok' and 'newctx' in case:
+            bad.append(('label-identity-lost-after-read', '%s: reading the separately written modules into one context detaches a '
+                        'label reference from its label insn: %s' % (tag, d.get('LI0'))))
         if d.get('S1', '=') != '=':
             s0 = K.text_of(d, 'S0')
             bad.append(('structure-differs-after-read', '%s: the module read back differs structurally (API fields) from the module '
@@ -323,7 +332,7 @@ def replay(chk, path):
     r1, r2, rm = run_cases(chk, exes, [case])
     bad = judge(case, r1[0], r2[0], rm[0])
     print('case:', case)
-    for k in ('build', 'TS', 'SS', 'W2', 'RB', 'T1', 'S1', 'RW', 'WF', 'WH', 'RM', 'TM', 'TN1', 'TR1', 'X0', 'X1', 'FR0', 'FR1', 'CRASH'):
+    for k in ('build', 'TS', 'SS', 'W2', 'RB', 'T1', 'S1', 'LI0', 'LI1', 'LIM', 'RW', 'WF', 'WH', 'RM', 'TM', 'TN1', 'TR1', 'X0', 'X1', 'FR0', 'FR1', 'CRASH'):
         print('  raw.%s = %s   compressed.%s = %s' % (k, r1[0].get(k, '-')[:100], k, r2[0].get(k, '-')[:100]))
     for s, w in bad:
         print('FAIL', s, w)
